@@ -128,6 +128,8 @@ pub struct St {
     pub hold_write: bool,
     pub parked_in_write: bool,
     pub hold_read: bool,
+    /// sleep this long in every read call (0 = off)
+    pub read_delay_us: u64,
     pub parked_in_read: bool,
     /// Seeded micro-delays inside read/write for schedule diversity.
     pub jitter: Option<crate::rng::Rng>,
@@ -192,6 +194,7 @@ pub fn new_mock(reflex: Reflex) -> (Mock, Handle) {
         hold_write: false,
         parked_in_write: false,
         hold_read: false,
+        read_delay_us: 0,
         parked_in_read: false,
         jitter: None,
         jitter_left: 400,
@@ -348,6 +351,13 @@ impl Read for Mock {
             st = sh.cv.wait(st).unwrap_or_else(|p| p.into_inner());
         }
         st.parked_in_read = false;
+        if st.read_delay_us > 0 {
+            // a reader that is a little slower than the peer (the lock is released meanwhile)
+            let d = Duration::from_micros(st.read_delay_us);
+            drop(st);
+            std::thread::sleep(d);
+            st = sh.lock();
+        }
         if let Some(d) = jitter(&mut st) {
             drop(st);
             std::thread::sleep(d);
